@@ -117,3 +117,43 @@ target("breezy/export.py::dir_exporter_generator",
 undecided("that every file entry queued in the first loop is written in the second (the queue is handed to the external iter_files_bytes) and that "
           "the written bytes are the tree's (chunks are passed through)")
 undecided("tar and zip exporters (archive byte formats), filtered content, per-file timestamps")
+
+# ---- tar archives: what one entry becomes (prepare_tarball_item): a file keeps its exact content, its length and its executable bit
+#      (0755 / 0644); a directory is a directory entry named with a trailing slash; a symlink keeps its target
+TI = cls("TarInfo", fields={"name": STR, "mtime": ANY, "type": BYTES, "mode": INT, "size": INT, "linkname": STR})
+TextOf = ufunc("TextOf", STR, BYTES)
+BIO = Opaque("BytesIO")
+BioContent = ufunc("BioContent", BIO, BYTES)
+const("tarfile.REGTYPE", b"0")
+const("tarfile.DIRTYPE", b"5")
+const("tarfile.SYMTYPE", b"2")
+assume_note("tarfile.REGTYPE / DIRTYPE / SYMTYPE are b'0' / b'5' / b'2' (standard library constants; the replay driver compares them)")
+assumed("tarfile.TarInfo", pure=True, no_raise=True, result=TI, ensures=lambda c: eq(c.view(c.result).name, c.args[0]))
+assumed("tree.get_file_text", pure=True, returns=lambda c: TextOf(c.args[0]), raises={"Exception": None})
+assumed("BytesIO", pure=True, no_raise=True, result=BIO, ensures=lambda c: BioContent(c.result) == c.args[0])
+ENT = Opaque("Entry")
+attr_sort("Entry.kind", STR)
+exceptions(BzrError="Exception")
+
+
+def tar_item(c):
+    item, fobj = c.view(c.result.t[0]), c.result.t[1]
+    k, tp = attr(c.old.entry, "kind"), c.old.tree_path
+    fn = Join(c.old.root, c.old.final_path)
+    return If(k == lift("file"),
+              And(item.type == lift(b"0"), item.name == fn, item.mode == If(IsExec(tp), 0o755, 0o644), item.size == Len(TextOf(tp)),
+                  Not(fobj.is_none), BioContent(fobj.val) == TextOf(tp)),
+              If(Or(k == lift("directory"), k == lift("tree-reference")),
+                 And(item.type == lift(b"5"), item.name == fn + lift("/"), item.size == 0, item.mode == 0o755, fobj.is_none),
+                 And(k == lift("symlink"), item.type == lift(b"2"), item.name == fn, item.size == 0, item.linkname == LinkTarget(tp),
+                     fobj.is_none)))
+
+
+target("breezy/archive/tar.py::prepare_tarball_item", params=dict(tree=ANY, root=STR, final_path=STR, tree_path=STR, entry=ENT, force_mtime=ANY),
+       locals=dict(fileobj=Opt(BIO), content=BYTES),
+       ensures={"the_entry_is_archived_faithfully": tar_item},
+       raises={"BzrError": lambda c: Not(Or(*[attr(c.old.entry, "kind") == lift(k_) for k_ in ("file", "directory", "tree-reference", "symlink")])),
+               "Exception": True},
+       canary=lambda c: c.view(c.result.t[0]).size == 0,
+       equivalent_mutants={r"mtime": "time stamps are outside the statement (they are forced or taken from the tree)"},
+       note="one entry of a tar export")
